@@ -108,8 +108,30 @@ class Models:
     def call(self, e, st, args):
         m = self.table.get(e["fn"])
         if m is None:
-            return None
+            return self._ops_call(e, st, args)
         return m(e, st, args)
+
+    _OPS = {"add": "Add", "sub": "Sub", "mul": "Mul", "div": "Div", "rem": "Rem", "bitand": "BitAnd", "bitor": "BitOr",
+            "bitxor": "BitXor", "shl": "Shl", "shr": "Shr"}
+
+    def _ops_call(self, e, st, args):
+        """operator traits on integers called as functions, typically with a reference operand (`acc | b` with b: &u8,
+        `<u8 as BitOr<&u8>>::bitor`): the primitive operator on the referenced values"""
+        import re
+        fn = e.get("resolved") or e["fn"]
+        m = re.match(r"^<&?(?:'\w+ )?(\w+) as std::ops::(\w+)(?:<[^>]*>)?>::(\w+)$", fn)
+        if not m or m.group(3) not in self._OPS or len(args) != 2:
+            return None
+        vals = []
+        for a in args:
+            if isinstance(a, RefV):
+                a = self.I.read_loc(st, a.key, a.path)
+            if isinstance(a, MemRefV):
+                return None
+            if not isinstance(a, IntV):
+                return None
+            vals.append(a)
+        return [(s, "val", v) for s, v in self.I.binop(st, self._OPS[m.group(3)], vals[0], vals[1], e, vals[0].ty)]
 
     # ---------------------------------------------------------------- helpers
     def length_of(self, v):
@@ -148,6 +170,14 @@ class Models:
         if isinstance(v, IterV):
             return [(st, "val", v)]
         if isinstance(v, SliceV):
+            # `for x in &mut buf[..]` yields references to the bytes
+            at = None
+            try:
+                at = self.I.F.types[e["args"][0]["t"]]["s"]
+            except (KeyError, IndexError, TypeError):
+                pass
+            if at and at.startswith("&mut ") and e.get("name") == "into_iter":
+                return [(st, "val", IterV(("bytes_mut", v)))]
             return [(st, "val", IterV(("bytes", v)))]
         if isinstance(v, ArrV):
             return [(st, "val", IterV(("items", tuple(v.items))))]
@@ -836,9 +866,11 @@ class Models:
             st.pc.append(le(f, 31))
             return [(st, "val", IntV(f, "u8"))]
         if name == "supports_feedback_type":
+            from . import roles
+            fk = roles.fci_kind_fields(self.I.F)
             return [(st, "val", StructV("feedback::FciFeedbackPacketType", "FciFeedbackPacketType",
-                                        {"transport": BoolV(flit(("b", (key, "transport"), True))),
-                                         "payload": BoolV(flit(("b", (key, "payload"), True)))}))]
+                                        {fk["transport"]: BoolV(flit(("b", (key, "transport"), True))),
+                                         fk["payload"]: BoolV(flit(("b", (key, "payload"), True)))}))]
         return None
 
     def _dattr(self, d, what, ty):
